@@ -85,7 +85,7 @@ URL_IN_TEXT_RE = re.compile(
 
 # NOTE: we allow the a tag not to be closed because some browsers do and
 # also for performance reasons.
-URL_IN_HTML = r"""<a[^>]*\shref=(?:"([^"]*)"|'([^']*)'|([^\s>]*))[^>]*>"""
+URL_IN_HTML = r"""<a(?=\s)[^>]*\shref=(?:"([^"]*)"|'([^']*)'|([^\s>]*))[^>]*>"""
 URL_IN_HTML_BINARY = URL_IN_HTML.encode()
 
 # NOTE: the str patterns must be ascii-only to agree with their bytes twins
